@@ -113,4 +113,29 @@ def vtokLL : List (List Structure) → Bool
   | l :: r => vtokL l && vtokLL r
 end
 
+/-! every token of the tree satisfies `q` (the element a map / filter / sort lambda is followed by included) -/
+
+mutual
+def allTokS (q : Token → Bool) : Structure → Bool
+  | .generic t => q t
+  | .brk _ | .recurse _ | .fnCall _ => true
+  | .ifS bs => allTokLL q bs
+  | .forS _ body => allTokL q body
+  | .whileS Option.none body => allTokL q body
+  | .whileS (some c) body => allTokL q c && allTokL q body
+  | .fnDef _ _ body => allTokL q body
+  | .lam _ body => allTokL q body
+  | .lamOp k body => allTokL q body && q ⟨.general, lamOpKey k⟩
+  | .listS items => allTokLL q items
+  | .mon _ a => allTokS q a
+  | .dy _ a b => allTokS q a && allTokS q b
+  | .tri _ a b c => allTokS q a && allTokS q b && allTokS q c
+def allTokL (q : Token → Bool) : List Structure → Bool
+  | [] => true
+  | s :: r => allTokS q s && allTokL q r
+def allTokLL (q : Token → Bool) : List (List Structure) → Bool
+  | [] => true
+  | l :: r => allTokL q l && allTokLL q r
+end
+
 end Vy
